@@ -788,7 +788,6 @@ x
         -----
         Note that when sum_{edge[e, .] == a } D[e] = 0, nothing is performed
         """
-        from scipy.sparse import dia_matrix
         c = int(c)
         if c not in [0, 1, 2]:
             raise ValueError('c must be equal to 0, 1 or 2')
@@ -811,12 +810,11 @@ x
                 np.asarray(s2).ravel()[self.edges[:, 0]]
             return np.asarray(s2)
         if c == 2:
-            s1 = dia_matrix((1. / np.sqrt(s1), 0),
-                            shape=(self.V, self.V))
-            s2 = dia_matrix((1. / np.sqrt(adj.sum(1)), 0),
-                            shape=(self.V, self.V))
-            adj = (s1 * adj) * s2
-            self.weights = wgraph_from_adjacency(adj).get_weights()
+            # entry (a, b) of diag(1 / sqrt(s1)) * adj * diag(1 / sqrt(s2)),
+            # edge by edge: the edge list keeps its order
+            self.weights = self.weights / (
+                np.sqrt(np.asarray(s1).ravel()[self.edges[:, 0]]) *
+                np.sqrt(np.asarray(s2).ravel()[self.edges[:, 1]]))
             return np.asarray(s1), np.asarray(s2)
 
     def set_euclidian(self, X):
